@@ -408,7 +408,9 @@ fn layout_class(case: &Case, text: &str, stderr: &str) -> Option<String> {
                 text
             };
             if text.contains("virtual public") || text.contains(": virtual ") {
-                return Some("layout-assertion/cpp-virtual-base".into());
+                // (text sources are not analysed further: virtual inheritance somewhere in the
+                // declaration region is attributed to the known base-subobject finding)
+                return Some("layout-assertion/cpp-base-with-virtual-bases".into());
             }
             if text.contains(": public") && text.contains('~') {
                 return Some("layout-assertion/cpp-non-pod-base-tail-padding".into());
@@ -460,8 +462,22 @@ fn layout_class(case: &Case, text: &str, stderr: &str) -> Option<String> {
                 let (by_value, _) = g.deps(k);
                 work.extend(by_value);
             }
-            let any_virtual_base = g.nodes.iter().any(|n| n.virtual_bases && !n.bases.is_empty());
-            Some(if any_virtual_base {
+            // a class that derives from a class with virtual bases: the base subobject has the
+            // base's non-virtual size, the bindings embed the complete object (known finding);
+            // a class that merely has virtual bases itself is laid out correctly
+            let has_vb = |k: usize| g.nodes[k].virtual_bases && !g.nodes[k].bases.is_empty();
+            let mut anc = std::collections::BTreeSet::new();
+            let mut work: Vec<usize> = g.nodes[n].bases.iter().copied().chain(g.nodes[n].tbases.iter().map(|(b, _)| *b)).collect();
+            while let Some(k) = work.pop() {
+                if anc.insert(k) {
+                    work.extend(g.nodes[k].bases.iter().copied());
+                    work.extend(g.nodes[k].tbases.iter().map(|(b, _)| *b));
+                }
+            }
+            let base_with_vb = anc.iter().any(|b| has_vb(*b));
+            Some(if base_with_vb {
+                "layout-assertion/cpp-base-with-virtual-bases".into()
+            } else if has_vb(n) {
                 "layout-assertion/cpp-virtual-base".into()
             } else if non_pod_base {
                 "layout-assertion/cpp-non-pod-base-tail-padding".into()
